@@ -154,3 +154,50 @@ func SortedFns(m map[*ssa.Function]bool) []*ssa.Function {
 	sort.Slice(out, func(i, j int) bool { return out[i].String() < out[j].String() })
 	return out
 }
+
+// LoopCapture is a variable that a goroutine started inside a loop captures by reference although it lives outside the loop
+// and is assigned inside it: the goroutine may observe a later iteration's value (and races with the assignment).
+type LoopCapture struct {
+	Go   *ssa.Go
+	Cell *ssa.Alloc
+	Loop *Loop
+}
+
+// GoLoopCaptures finds the LoopCaptures of f.
+func (p *Prog) GoLoopCaptures(f *ssa.Function) []LoopCapture {
+	var out []LoopCapture
+	loops := Loops(f)
+	if len(loops) == 0 {
+		return nil
+	}
+	for _, b := range f.Blocks {
+		for _, ins := range b.Instrs {
+			g, ok := ins.(*ssa.Go)
+			if !ok {
+				continue
+			}
+			mc, ok := g.Call.Value.(*ssa.MakeClosure)
+			if !ok {
+				continue
+			}
+			for _, l := range loops {
+				if !l.Body[b] {
+					continue
+				}
+				for _, bd := range mc.Bindings {
+					cell := CellRoot(bd)
+					if cell == nil || cell.Parent() != f || l.Body[cell.Block()] {
+						continue
+					}
+					for _, st := range p.CellStores(cell) {
+						if st.Parent() == f && l.Body[st.Block()] {
+							out = append(out, LoopCapture{g, cell, l})
+							break
+						}
+					}
+				}
+			}
+		}
+	}
+	return out
+}
